@@ -17,7 +17,8 @@ error a real file system can return there (variant "<ERRNO>:<once|persist>": EIO
 PermissionError, ENOENT -> FileNotFoundError, ENOSPC) and either once or persistently: with
 "persist" every later call of the same kind on the same path(s) in that run fails again, so a
 retry / fallback that re-issues the call does not get through.  A third field "kill@J" kills the
-process at a later boundary J, i.e. while the fault is being handled.
+process at a later boundary J, i.e. while the fault is being handled.  "KeyboardInterrupt" / "SystemExit" in
+place of the errno deliver an interrupt at the boundary instead (SIGINT raised for real / SystemExit).
 
 Nothing here decides whether an outcome is acceptable: that is AtomicWrite.tla.
 """
@@ -59,7 +60,10 @@ _WRITE_EVENTS = {
 class Injector:
     def __init__(self, root: Path, dest: Path, k: int, mode: str, logfd: int, variant: str | None = None):
         parts = (variant or "EIO:once").split(":")
-        self.errno = getattr(errno, parts[0])
+        # "KeyboardInterrupt" / "SystemExit" instead of an errno: the k-th boundary is where an interrupt (a BaseException
+        # that is not an Exception) is delivered: SIGINT raised for real, or sys.exit() semantics
+        self.interrupt = parts[0] if parts[0] in ("KeyboardInterrupt", "SystemExit") else None
+        self.errno = errno.EIO if self.interrupt else getattr(errno, parts[0])
         self.persist = parts[1] == "persist"
         # optional second injection "kill@J": the process dies at boundary J > k while the fault is being handled
         self.kill_after = int(parts[2][len("kill@"):]) if len(parts) > 2 else None
@@ -183,6 +187,8 @@ class Injector:
             kind = "kill"
         elif self.failing_site is not None and raw == self.failing_site:
             kind = "fault"  # the same call on the same path is issued again: it fails again
+        if kind == "fault" and self.interrupt:
+            kind = "interrupt"  # a signal can arrive before any call, also before a no-op one
         if kind == "fault" and not can_fail:
             kind = "call"
         self.busy = True
@@ -192,6 +198,11 @@ class Injector:
             self.busy = False
         if kind == "kill":
             os._exit(KILL_STATUS)
+        if kind == "interrupt":
+            if self.interrupt == "SystemExit":
+                raise SystemExit(3)
+            signal.raise_signal(signal.SIGINT)  # the default handler raises KeyboardInterrupt in this (main) thread
+            raise KeyboardInterrupt("C19: SIGINT was not delivered as KeyboardInterrupt")
         if kind == "fault":
             raise OSError(self.errno, f"C19 injected {errno.errorcode[self.errno]} at boundary {self.idx} ({role})")
 
@@ -313,6 +324,7 @@ def run_in_child(root: Path, dest: Path, k: int, mode: str, logpath: Path, actio
         code = 3
         try:
             signal.alarm(timeout)
+            signal.signal(signal.SIGINT, signal.default_int_handler)
             inj = Injector(root, dest, k, mode, logfd, variant)
             install(inj)
             how, err = "ok", None
